@@ -28,6 +28,23 @@ package mqttproxy
 // towards the recording pipeline (optionally with a publish limiter and a
 // pipeline that drops some topics).
 //
+// Cluster view (about a third of the scenarios): the broker's member look-up
+// (memberURL, made for every message that is published as not yet distributed)
+// follows a cyclic plan: no peers, error with an empty or nil list (cluster store
+// error, unparsable member status, member without peer URL), empty list, one or
+// several peers of which 10.2.0.10 accepts the transferred publish and the
+// others refuse the connection (http.DefaultClient.Transport is a harness stub
+// for the run). The first sentence of the statement does not depend on peers:
+// every expectation towards the local subscribers stays as it is
+// (C15.local-delivery-lost-on-member-lookup-failure).
+//
+// Client-side QoS1 retries (about 30% of the scenarios): with a publish limiter
+// (1-3/s) and/or a pipeline that drops the n-th packet handed to it, a client
+// sends 1-3 QoS1 PUBLISHes, re-sends the latest one with DUP=1 and the same
+// packet id while fewer PUBACKs than transmissions arrived (op "repub", after
+// 0.3-2.1 s), and publishes a new message under that packet id once every
+// transmission was acknowledged (op "reuse").
+//
 // Population dynamics (about half of the scenarios): UNSUBSCRIBE steps, clients
 // that end their connection (DISCONNECT, close, reset), new client ids joining
 // late, and client ids that connect again: after the old connection has ended
@@ -94,8 +111,18 @@ package mqttproxy
 //        demonstrably processed the PUBACK (a PINGRESP for a PINGREQ sent after
 //        the PUBACK was received: the connection and the outbound queue are FIFO)
 //   C15.resend-changed-packet-id / C15.packet-id-reused
-//   C15.client-publish-not-forwarded / C15.client-publish-not-acked /
-//   C15.puback-unexpected-id / C15.backend-duplicate
+//   C15.client-publish-not-forwarded   without a limiter, a QoS1 PUBLISH (each
+//        transmission, DUP=1 retries included) was not handed to the pipeline
+//   C15.client-publish-acked-not-forwarded   a QoS1 PUBLISH got a PUBACK although
+//        none of its transmissions was ever handed to the pipeline
+//   C15.client-publish-not-acked       fewer PUBACKs than hand-overs the pipeline
+//        did not drop
+//   C15.backend-duplicate              handed over more often than transmitted
+//   C15.puback-unexpected-id
+//   C15.local-delivery-lost-on-member-lookup-failure   a message published as not
+//        yet distributed missed an eligible local subscriber and its member
+//        look-up failed (or the look-up was not even made while the publish
+//        handler ran and look-ups failed in the run)
 //   C15.unexpected-disconnect / C15.suback-missing / C15.http-publish-rejected
 //
 // Oracle decisions (statement silent / two readings):
@@ -139,6 +166,15 @@ package mqttproxy
 //     {restored,inherited}_session record what easegress does (the pending
 //     queue is not part of the stored session: never redelivered on a restored
 //     session, redelivered on one inherited in memory).
+//   * client PUBLISH retries: every transmission is "a QoS1 PUBLISH from a
+//     client"; without a limiter each must be handed to the pipeline, with a
+//     limiter those it refused cannot be told from outside (probe). A message
+//     that was handed over at least once and got more PUBACKs than hand-overs
+//     (a broker answering the retry of a message it already took over without
+//     handing it over again) is accepted (probe
+//     mqtt.client_publish_more_pubacks_than_handovers); a PUBACK for a message
+//     that was never handed over is a violation. The HTTP status of a publish
+//     whose member look-up failed is asserted to stay 200 like for any other.
 //   * not generated: QoS2, invalid filters, '$' topics, empty levels, retained
 //     messages, wills, keep-alive expiry (keep-alive 0, see HARNESS_GUIDE on
 //     scheduler stalls), storage latency and storage errors (C16).
@@ -848,6 +884,7 @@ func c15Merge(a, b c15Exp) c15Exp {
 
 type c15Msg struct {
 	mfault  string // the member look-up made while this message was being published failed this way
+	looked  bool   // a member look-up was made while the publish handler was running for this message
 	local   bool   // published as not yet distributed: the broker looks its peers up
 	key     string
 	topic   string
@@ -1093,6 +1130,9 @@ func (h *c15H) memberURL(egName, name string) ([]string, error) {
 	h.nMember++
 	peer := func(i int) string {
 		return fmt.Sprintf("http://10.2.0.%d:2381/apis/v1/mqttproxy/%s/topics/publish", 10+i, name)
+	}
+	if h.curIssue != nil {
+		h.curIssue.looked = true
 	}
 	if mode != "" {
 		if h.curIssue != nil {
@@ -2385,7 +2425,7 @@ func (h *c15H) evaluate() {
 					r.Probe("mqtt.qos0_dropped_queue_full")
 					continue
 				}
-				if m.local && (m.mfault == "err" || m.mfault == "errnil" || (m.mfault == "" && h.mFaults > 0)) && hungMatched == "" {
+				if m.local && (m.mfault == "err" || m.mfault == "errnil" || (!m.looked && h.mFaults > 0)) && hungMatched == "" {
 					h.violate("C15.local-delivery-lost-on-member-lookup-failure", "QoS0 message %q on %q, published as not yet distributed, never reached eligible client %s (at most %d packets can have been waiting in its outbound queue of capacity %d); the cluster member look-up of this publish: %q, failed look-ups in this run: %d; local delivery must not depend on the peers\n%s",
 						c15Short(m.key), m.topic, cl.name, occ, cl.qcap, m.mfault, h.mFaults, h.describe(m))
 					continue
@@ -2409,7 +2449,7 @@ func (h *c15H) evaluate() {
 			case hungMatched != "":
 				class = "C15.fanout-blocked-by-unresponsive-subscriber"
 				why = "subscriber " + hungMatched + " stopped reading while staying connected"
-			case m.local && (m.mfault == "err" || m.mfault == "errnil" || (m.mfault == "" && h.mFaults > 0)):
+			case m.local && (m.mfault == "err" || m.mfault == "errnil" || (!m.looked && h.mFaults > 0)):
 				class = "C15.local-delivery-lost-on-member-lookup-failure"
 				why = fmt.Sprintf("published as not yet distributed; the cluster member look-up of this publish: %q, failed look-ups in this run: %d; local delivery must not depend on the peers", m.mfault, h.mFaults)
 			case h.churn:
@@ -2728,12 +2768,12 @@ func TestVerifC15(t *testing.T) {
 		Shrink:   c15Shrink,
 		MaxSteps: 600000,
 		DeadlockClass: "C15.deadlock",
-		Rule: "scenario = 2-10 raw MQTT connections (in ~55% of the scenarios with unsubscribes, disconnects, late joiners, reconnects and take-overs of client ids - clean or with cleanSession=0: session restored from the storage after a complete teardown or inherited in memory -, prefix-nested filters; in ~30% a recipe: persistent QoS1 subscriber ends, is torn down, returns with cleanSession=0 and only then gets QoS1 publishes whose first transmission is lost by withheld PUBACKs or a burst beyond its outbound queue) with 1-6 overlapping filters of QoS 0/1 over 1-4 topics (1-2 SUBSCRIBE packets, late re-subscriptions), per-client PUBACK behaviours (prompt, omit k, delay, duplicate, +PINGREQ), optional read stall, client PUBLISH ops; 1-2 publishers with 1-8 HTTP publishes each (QoS 0/1, bursts up to 120), limiter/pipeline-drop knobs, simnet buffer/segment/latency plan; " +
+		Rule: "scenario = 2-10 raw MQTT connections (in ~55% of the scenarios with unsubscribes, disconnects, late joiners, reconnects and take-overs of client ids - clean or with cleanSession=0: session restored from the storage after a complete teardown or inherited in memory -, prefix-nested filters; in ~30% a recipe: persistent QoS1 subscriber ends, is torn down, returns with cleanSession=0 and only then gets QoS1 publishes whose first transmission is lost by withheld PUBACKs or a burst beyond its outbound queue) with 1-6 overlapping filters of QoS 0/1 over 1-4 topics (1-2 SUBSCRIBE packets, late re-subscriptions), per-client PUBACK behaviours (prompt, omit k, delay, duplicate, +PINGREQ), optional read stall, client PUBLISH ops; 1-2 publishers with 1-8 HTTP publishes each (QoS 0/1, bursts up to 120), limiter/pipeline-drop knobs (drop by topic or the n-th packet; in ~30% client QoS1 PUBLISH sequences with DUP=1 retries of the unacknowledged publish and re-use of an acknowledged packet id), in ~35% a cyclic plan for the cluster member look-up (error, nil+error, empty, reachable/unreachable peers) with most messages published as not yet distributed, simnet buffer/segment/latency plan; " +
 			"non-trivial = some message had >=2 eligible subscribers and (a QoS1 message had both eligible and lower-QoS subscribers, or a retransmission was observed); distinct = distinct (final subscriptions, per-client sequence of received messages with copy counts) signatures",
 		Real: []string{"pkg/object/mqttproxy: newBroker, Broker.run/handleConn/connectionValidation/setSession, sendMsgToClient, httpTopicsPublishHandler, Client.readLoop/writeLoop/processPacket (SUBSCRIBE, PUBLISH, PUBACK, PINGREQ), pipelineWrapper, Limiter, SessionManager, Session.publish/puback/doResend/backgroundResendPending (200 ms ticker on the virtual clock), TopicManager",
 			"pkg/util/ratelimiter (publish limiter)", "github.com/eclipse/paho.mqtt.golang/packets codec on both sides"},
 		Stub: []string{"TCP: verif/simkit/simnet through netshim (bounded buffers, segmentation, latency)", "storage: the repo's mockStorage behind a recording wrapper (session look-ups and their answers, puts, deletes)", "publish pipeline: recording context.Handler behind a MuxMapper (may drop by topic)",
-			"MQTT clients: harness tasks (reader, single writer, script) speaking raw MQTT 3.1.1", "HTTP: handler called in-process with httptest (memberURL returns no peers)",
+			"MQTT clients: harness tasks (reader, single writer, script) speaking raw MQTT 3.1.1", "HTTP: handler called in-process with httptest", "cluster: memberURL callback following the scenario's plan; peers = http.DefaultClient.Transport stub (10.2.0.10 answers 200, others refuse)",
 			"sync/atomic of the package -> simsync/simatomic (same semantics + gates); map ranges of the package iterate in a seeded order"},
 		Assumptions: []string{
 			"a message counts for a client only in the subscription states the client had from the publish on: MUST receive iff eligible in all of them, MUST NOT iff no filter matches in any of them",
@@ -2742,6 +2782,8 @@ func TestVerifC15(t *testing.T) {
 			"a subscriber whose matching filters all have a lower QoS may receive a downgraded copy or nothing; a copy at the message's QoS is a violation",
 			"retransmission interval not asserted; copies between the client's PUBACK and a PINGRESP proving its processing are legal; duplicate QoS0 copies not judged",
 			"with a publish limiter, 'passed the limiter' is read off the recording pipeline; PUBACK for a PUBLISH the pipeline dropped: both accepted",
+			"every transmission of a client QoS1 PUBLISH (first one and DUP=1 retries with the same id) is a PUBLISH of its own: without limiter each must reach the pipeline; PUBACKs >= hand-overs the pipeline did not drop; a PUBACK for a message never handed over is a violation; more PUBACKs than hand-overs for a message that was handed over at least once is accepted (probe)",
+			"local delivery must not depend on the cluster member look-up or on the peers; the HTTP status stays 200 when the look-up fails",
 			"not generated: QoS2, invalid filters, '$' topics, wills, retained, keep-alive expiry (keep-alive 0), storage latency/errors (C16), SUBSCRIBE/UNSUBSCRIBE by a connection that is going to be superseded",
 			"cleanSession=0 on a re-used client id: from its CONNACK on the connection holds the subscriptions of the stored session the broker was answered with during the handshake (restored from storage) or the acknowledged subscriptions of the predecessor (no storage look-up: inherited in memory); filters on which a restored session differs from the predecessor's acknowledged state (known C16 store-lag findings) are in flux until the connection (un)subscribes them itself: both outcomes accepted; more than one look-up during a handshake: connection not judged",
 			"redelivery until PUBACK is required on restored and inherited sessions like on any other; a PUBACK for the same message and packet id sent on a superseded connection that shares the session object counts as the client's acknowledgement",
